@@ -1,13 +1,17 @@
 ------------------------------ MODULE MC_Text ------------------------------
 (* Exhaustive bounded model for C11's text clause: every string of up to    *)
-(* MaxLen items over {narrow, space, wide, zero-width, tab, line break},    *)
-(* every helper, every window width in Widths and height in Heights.        *)
+(* MaxLen items over Kinds (narrow, space, wide, zero-width, tab, line       *)
+(* break; K8 adds the clusters the terminal shows narrower ("e": 1 cell,    *)
+(* Unicode tables 2) or wider ("h": 2 cells, tables 1) than the tables      *)
+(* say), every helper, every window width in Widths and height in Heights.  *)
 (*  - oracle sanity: the layouts TextLayout produces never put a cluster    *)
 (*    outside the window's columns and are in reading order;                *)
 (*  - the implementation-shaped text helpers of WindowImpl, executed on an  *)
 (*    ideal clipped window, satisfy TextLayout!TextOK.                      *)
 EXTENDS TextLayout, WindowImpl, TLC
-CONSTANTS MaxLen, Widths, Heights, Repaired
+CONSTANTS MaxLen, Widths, Heights, Kinds, Repaired, Measure
+
+Fx == [wide |-> Repaired, measure |-> Measure]
 
 WQuick == 0..4
 HQuick == {1, 2}
@@ -15,19 +19,24 @@ WDeep == 1..4
 HDeep == {2}
 
 Fns == {"print", "println", "trunc", "wrap"}
-Kinds == {"n", "s", "w", "z", "t", "l"}
+K6 == {"n", "s", "w", "z", "t", "l"}
+K8 == K6 \cup {"e", "h"}
 
 VARIABLES str, fn, W, H, row
 vars == <<str, fn, W, H, row>>
 
-(* item i of kind kd; clusters get distinct grapheme ids (100 + i). *)
+(* item i of kind kd; clusters get distinct grapheme ids (100 + i).  w = the *)
+(* width the terminal gives the cluster (the oracle's), u = the width of    *)
+(* the Unicode tables (only the implementation-shaped Wrap looks at it).    *)
 Item(kd, i) ==
-  CASE kd = "n" -> [k |-> "g", g |-> 100 + i, w |-> 1, s |-> 0, b |-> 0]
-    [] kd = "s" -> [k |-> "g", g |-> 0, w |-> 1, s |-> 0, b |-> 1]
-    [] kd = "w" -> [k |-> "g", g |-> 100 + i, w |-> 2, s |-> 0, b |-> 1]
-    [] kd = "z" -> [k |-> "g", g |-> 100 + i, w |-> 0, s |-> 0, b |-> 0]
-    [] kd = "t" -> [k |-> "tab", g |-> 0, w |-> 0, s |-> 0, b |-> 1]
-    [] OTHER    -> [k |-> "nl", g |-> 0, w |-> 0, s |-> 0, b |-> 1]
+  CASE kd = "n" -> [k |-> "g", g |-> 100 + i, w |-> 1, u |-> 1, s |-> 0, b |-> 0]
+    [] kd = "s" -> [k |-> "g", g |-> 0, w |-> 1, u |-> 1, s |-> 0, b |-> 1]
+    [] kd = "w" -> [k |-> "g", g |-> 100 + i, w |-> 2, u |-> 2, s |-> 0, b |-> 1]
+    [] kd = "z" -> [k |-> "g", g |-> 100 + i, w |-> 0, u |-> 0, s |-> 0, b |-> 0]
+    [] kd = "e" -> [k |-> "g", g |-> 100 + i, w |-> 1, u |-> 2, s |-> 0, b |-> 1]
+    [] kd = "h" -> [k |-> "g", g |-> 100 + i, w |-> 2, u |-> 1, s |-> 0, b |-> 0]
+    [] kd = "t" -> [k |-> "tab", g |-> 0, w |-> 0, u |-> 0, s |-> 0, b |-> 1]
+    [] OTHER    -> [k |-> "nl", g |-> 0, w |-> 0, u |-> 0, s |-> 0, b |-> 1]
 
 Raw == [i \in 1..Len(str) |-> Item(str[i], i)]
 Items == Expand(Raw, 1, <<>>)
@@ -52,15 +61,15 @@ OracleSane == \A st \in Layouts(fn, row, Items, W) : InColumns(st, Items) /\ Rea
 
 (* ---- implementation against oracle ---- *)
 Calls ==
-  CASE fn = "print"   -> IPrint(Items, 1, 0, 0, <<>>, W, H, Repaired)
-    [] fn = "wrap"    -> IWrap(Items, 1, 0, 0, <<>>, W, H, Repaired)
+  CASE fn = "print"   -> IPrint(Items, 1, 0, 0, <<>>, W, H, Fx)
+    [] fn = "wrap"    -> IWrap(Items, 1, 0, 0, <<>>, W, H, Fx)
     [] fn = "println" -> IPrintln(Items, row, W, H)
     [] OTHER          -> ITrunc(Items, row, W, H)
 
 CW(cl) == IF cl.i = 0 THEN 1 ELSE Items[cl.i].w
-(* the window accepts a call iff the cell (all of it, when repaired) is inside *)
+(* the window accepts a call iff the cell (all of it, when repaired, as wide as the cell states) is inside *)
 Accepted(cl) == /\ cl.x >= 0 /\ cl.x < W /\ cl.y >= 0 /\ cl.y < H
-                /\ (Repaired /\ CW(cl) > 1) => cl.x + CW(cl) <= W
+                /\ (Repaired /\ cl.d > 1) => cl.x + cl.d <= W
 Shown(cl) ==   \* what the terminal shows for the cell written by this call
   LET st == [fg |-> 0, bg |-> 7, ul |-> 0, us |-> 0, at |-> 0] IN
   IF cl.i = 0 THEN [k |-> "g", g |-> Ell, w |-> 1, st |-> st, ln |-> 0]
